@@ -301,6 +301,14 @@ func (h *History) nextEv() uint64 { h.ev++; return h.ev }
 
 func (h *History) invoke(client, idx int, op OpSpec) *ReqRec {
 	r := &ReqRec{Id: reqId(client, idx), Client: client, Idx: idx, Op: op, done: make(chan struct{})}
+	if op.Data != nil {
+		if op.Data.FirstLast {
+			h.w.probe("value_ops_with_first_or_last_flag")
+		}
+		if op.Data.Short > 0 {
+			h.w.probe("incr_operands_not_8_bytes")
+		}
+	}
 	ssched.NoPreempt(func() {
 		r.InvEv, r.InvStep, r.InvT = h.nextEv(), h.w.S.Steps, h.w.now()
 		h.reqs[r.Id] = r
